@@ -33,6 +33,19 @@ Record situation := mkSit {
   s_sudo : bool;            (* run through Context.sudo *)
   s_bad_password : bool }.  (* the (first) watcher error is sudo's rejected-password responder *)
 
+(** "warn was requested": the call says so; or the call has no opinion (keyword
+    omitted, or None) and the configuration says so. *)
+Definition warn_requested (ws : warn_src) : bool :=
+  match ws_kw ws with
+  | KwVal b => b
+  | KwOmitted | KwNone => match ws_cfg ws with Some b => b | None => false end
+  end.
+
+(** the situation of a call whose warn comes from [w] *)
+Definition set_warn (s : situation) (w : bool) : situation :=
+  mkSit (s_thread_excs s) (s_watcher_errs s) (s_timeout_set s) (s_timed_out s) (s_status s) w
+        (s_sudo s) (s_bad_password s).
+
 (** The failure raised, by priority; [None] = returns normally. *)
 Definition expected_raise (s : situation) : option raise_kind :=
   if negb (Nat.eqb (s_thread_excs s) 0) then Some RThreadException
@@ -75,3 +88,10 @@ Definition spec_program (e : prog_event) (o : prog_out) : bool :=
   | POtherException, PPropagates => true              (* not the program's business *)
   | _, _ => false
   end.
+
+(** The program running one task that runs one command exiting with [code]:
+    warn requested on the command line (-w), in the configuration, or by the
+    call's keyword (an explicit True / False wins). *)
+Definition spec_task_run (flag : bool) (cfg : option bool) (kw : kwopt) (code : Z) (o : prog_out) : bool :=
+  let requested := warn_requested (mkWs (if flag then Some true else cfg) kw) in
+  spec_program (if (code =? 0)%Z || requested then PSuccess else PUnexpectedExit code) o.
